@@ -24,6 +24,22 @@ def main():
                 prog = " ; ".join(fc.get("program") or [])
                 first = (prog[:110] + "...") if len(prog) > 110 else prog
                 break
+        # rounds 3+: first contact and the run with the final machinery (tools/par_eval.py, private worktree)
+        fc_ = d.get("first_contact", {}).get("results") or []
+        if fc_:
+            ran = "first contact " + ", ".join("%s:%s" % (r["check"], {"DETECTED": "caught", "missed": "missed"}.get(r["verdict"], "machinery")) for r in fc_[:1])
+        tri = d.get("triage") or []
+        if tri:
+            last = {}
+            for r in tri:
+                last[r["check"]] = r
+            ran = (ran + "; " if ran else "") + "final " + ", ".join("%s:%s" % (c, "caught" if r["exit"] == 1 else ("missed" if r["exit"] == 0 else "machinery")) for c, r in sorted(last.items()))
+            if not first:
+                for c, r in sorted(last.items()):
+                    if r["exit"] == 1 and r.get("first"):
+                        f1 = (r.get("build") or "") + ": " + r["first"]
+                        first = (f1[:110] + "...") if len(f1) > 110 else f1
+                        break
         rows.append("| %s | %s | %s | %s | %s | `%s` |" % (name, d.get("property"), "yes" if d.get("confirmed") else "no", summ, ran, first.replace("|", "/")))
     table = [MARK, "", "| seeded change | breaks | confirmed (tests pass, demo discriminates) | what it is | checks run -> result | first counterexample reported |",
              "|---|---|---|---|---|---|"] + rows + [""]
